@@ -100,7 +100,7 @@ def check(prop, tier, seed, out):
     elif prop == "C02":
         out.require("samples_compared", agg.get("samples_compared", 0), 100)
         out.require("alloc_ops_in_calls", agg.get("alloc_ops_in_calls", 0), 100)
-        sanit.miri_loop("C02", loopgen.gen_c02("quick", seed)[:8 if tier == "quick" else 48], out, seeds=1)
+        sanit.miri_loop("C02", [l for l in loopgen.gen_c02("quick", seed) if " T=1 " in l or " T=2 " in l][:8 if tier == "quick" else 48], out)
     elif prop == "C05":
         out.require("chain_samples", agg.get("chain_samples", 0), 100)
     elif prop == "C19":
